@@ -62,6 +62,18 @@ add('iso_time12_dots', lambda d: '%04d-%02d-%02d %d:%02d:%02d %s' % (d.year, d.m
 add('iso_h12', lambda d: '%04d-%02d-%02d %d %s' % (d.year, d.month, d.day, h12(d.hour), ap(d.hour)), 'h')
 add('iso_h12_glued', lambda d: '%04d-%02d-%02d %d%s' % (d.year, d.month, d.day, h12(d.hour), ap(d.hour).lower()), 'h')
 add('iso_hms', lambda d: '%04d-%02d-%02d %02dh%02dm%02ds' % (d.year, d.month, d.day, d.hour, d.minute, d.second), 's')
+def _fr(d, n):
+    return ('%06d' % d.microsecond)[:n]
+
+
+def _trunc(n):
+    return lambda d: d.replace(microsecond=d.microsecond // 10 ** (6 - n) * 10 ** (6 - n))
+
+
+for _n in (1, 2, 3, 4, 5):
+    add('iso_T_f%d' % _n, (lambda n: lambda d: '%04d-%02d-%02dT%02d:%02d:%02d.%s' % (d.year, d.month, d.day, d.hour, d.minute, d.second, _fr(d, n)))(_n), 'f%d' % _n)
+    add('iso_hms_f%d' % _n, (lambda n: lambda d: '%04d-%02d-%02d %02dh%02dm%02d.%ss' % (d.year, d.month, d.day, d.hour, d.minute, d.second, _fr(d, n)))(_n), 'f%d' % _n)
+add('compactT6_f3', lambda d: '%04d%02d%02dT%02d%02d%02d.%s' % (d.year, d.month, d.day, d.hour, d.minute, d.second, _fr(d, 3)), 'f3')
 add('iso_hmsf', lambda d: '%04d-%02d-%02d %02dh%02dm%02d.%06ds' % (d.year, d.month, d.day, d.hour, d.minute, d.second, d.microsecond), 'us')
 add('us_slash', lambda d: '%02d/%02d/%04d' % (d.month, d.day, d.year), 'd')
 add('us_slash_time', lambda d: '%d/%d/%04d %02d:%02d:%02d' % (d.month, d.day, d.year, d.hour, d.minute, d.second), 's')
@@ -73,7 +85,8 @@ add('y_slash', lambda d: '%04d/%02d/%02d' % (d.year, d.month, d.day), 'd')
 add('y_slash_yearfirst', lambda d: '%04d/%02d/%02d' % (d.year, d.month, d.day), 'd', yearfirst=True)
 add('ydm', lambda d: '%04d-%02d-%02d' % (d.year, d.day, d.month), 'd', dayfirst=True, yearfirst=True)
 
-PREC = {'us': lambda d: d,
+PREC = {'f1': _trunc(1), 'f2': _trunc(2), 'f3': _trunc(3), 'f4': _trunc(4), 'f5': _trunc(5),
+        'us': lambda d: d,
         'ms': lambda d: d.replace(microsecond=d.microsecond // 1000 * 1000),
         's': lambda d: d.replace(microsecond=0),
         'm': lambda d: d.replace(second=0, microsecond=0),
